@@ -36,9 +36,19 @@ def loop_case(rng):
         if ty == "int":
             vals = [rng.randint(0, 6) for _ in range(n)]
             items = [rng.choice([str(v), "%d + %d" % (v - v // 2, v // 2), "(%d)" % v]) for v in vals]
+            # value-preserving casts: bools and integral floats listed in an int loop are bound as ints
+            for k, v in enumerate(vals):
+                r = rng.random()
+                if v in (0, 1) and r < 0.3:
+                    items[k] = "True" if v else "False"
+                elif r < 0.12:
+                    items[k] = rng.choice(["%d.0" % v, "%d / 2" % (2 * v), "%de0" % v])
         elif ty == "float":
             vals = [rng.choice([0.5, 1.25, 2.0, 3.5, 7.0]) for _ in range(n)]
             items = [repr(v) if rng.random() < 0.7 else ("%d" % int(v) if v == int(v) else repr(v)) for v in vals]
+            for k, v in enumerate(vals):
+                if rng.random() < 0.15:
+                    items[k] = rng.choice(["%r / 2" % (2 * v), "%r * 1" % v, "%r + 0" % v])       # computed (numpy) values
         elif ty == "bool":
             vals = [rng.random() < 0.5 for _ in range(n)]
             items = ["True" if v else "False" for v in vals]
